@@ -13,6 +13,11 @@ def run(ctx):
     viol, corr = [], []
     n = 250 * min(2, nv.boost("engine")) if ctx["tier"] == "quick" else 5000
     base = gen_cases(rng, n, with_opt=True, limit_prob=0.15)
+    # the two execution modes must also agree at the edge of the engine's capacity (the interpreted engine computes with NumPy scalars
+    # of the arrays' 8-bit type, the compiled one with 64-bit integers): deep searches over free Booleans at the largest stack heights
+    for n_, h_ in ((200, 256), (256, 256), (258, 256), (258, 255)):
+        # unconstrained Booleans: every decision opens one level, the first solution sits at depth n_
+        base.append({"op": "solve", "problem": nv.Prob([(0, 1)] * n_, props=[]).to_json(), "cfg": ce.cfg_json(nv.Cfg(height=h_)), "limit": 3})
     # a history: the same cases, shuffled, each one twice, interleaved with registrations, abandoned generators
     # (the `limit` cases) and solvers rebuilt on a reused problem object
     hist = []
